@@ -260,6 +260,27 @@ func postRun(res *vf.Result, mf MainFinal, scratch string, cp caps, resets []res
 	// the set of level-0 files published up to the archive counter read at that moment.
 	midAcks(res, mf, ar, l0, led, cp, sfx, note, tag)
 
+	// ---- the source itself (C14 under concurrency): after litestream and the application
+	// are gone, the source database must pass integrity_check and hold every commit that
+	// returned to the application (conservation: commits in == commits visible)
+	res.Count("app_side_checkpoints", int(mf.AppCkpts))
+	if mf.SrcCopy != "" {
+		if src, err := sq.CheckpointedImage(mf.SrcCopy); err != nil {
+			res.Evals++
+			res.Violate("source-unreadable", "%s: the source database cannot be opened/checkpointed after the run: %v%s", tag, err, root)
+		} else {
+			res.Evals++
+			res.Count("source_conservation_checked", 1)
+			k, why := led.consistent(src)
+			switch {
+			case why != "":
+				res.Violate("source-damaged", "%s: the source database after the run is not the state the application committed: %s (ledger k=%d, last commit that returned k=%d)%s", tag, why, k, mf.LastK, root)
+			case k < mf.LastK:
+				res.Violate("source-lost-application-commits", "%s: the source database after the run holds ledger k=%d but the application's commit k=%d had returned: committed transactions vanished from the source%s", tag, k, mf.LastK, root)
+			}
+		}
+	}
+
 	// ---- C01: final acknowledged state
 	if mf.SrcCopy != "" && (mf.AckSync || mf.AckClose) {
 		res.Evals++
